@@ -9,7 +9,7 @@ def generate():
     rd = gt.src("src/enc/reader.rs")
     wr = gt.src("src/enc/writer.rs")
     md = gt.src("src/enc/mod.rs")
-    m = re.search(r"else\s+if\s+self\.input_offset\s*\+\s*(\d+)\s*>\s*self\.input_buffer\.slice_mut\(\)\.len\(\)\s*&&\s*avail_in\s*<\s*self\.input_offset", rd)
+    m = re.search(r"else\s+if\s+self\.input_offset\s*\+\s*(\d+)\s*>\s*self\.input_buffer\.slice_mut\(\)\.len\(\)\s*&&\s*\w+\s*<\s*self\.input_offset", rd)
     if not m:
         raise gt.GenError("reader.rs copy_to_front: `input_offset + K > len && avail_in < input_offset` not found")
     out.append("Definition IO_COPY_TO_FRONT_SLACK : nat := %d." % int(m.group(1)))
@@ -18,19 +18,21 @@ def generate():
         if not m:
             raise gt.GenError("%s: `if buffer_size == 0 { K } else { buffer_size }` not found" % fn)
         out.append("Definition IO_%s_DEFAULT_BUFFER : nat := %d." % (name, int(m.group(1))))
-    # the loop of CustomRead::read and whether it is guarded against an empty caller buffer
-    m = re.search(r"fn\s+read\s*\(\s*&mut\s+self\s*,\s*buf\s*:\s*&mut\s*\[u8\]\s*\)\s*->\s*Result<usize,\s*ErrType>\s*\{(.*?)\n    \}\n", rd, re.S)
-    if not m or "while output_offset == 0" not in m.group(1):
-        raise gt.GenError("reader.rs: CustomRead::read with `while output_offset == 0` not found")
-    body = m.group(1)
-    guard = re.search(r"^\s*if\s+buf\.is_empty\(\)\s*\{\s*(?://[^\n]*\n\s*)*return\s+Ok\(0\);\s*\}", body, re.M)
-    guarded = bool(guard) and body.index("while output_offset == 0") > guard.start()
+    # the loop of CustomRead::read (`while <output cursor> == 0`) and whether it is guarded against an
+    # empty caller buffer (local / parameter names are not part of the anchors)
+    m = re.search(r"fn\s+read\s*\(\s*&mut\s+self\s*,\s*(\w+)\s*:\s*&mut\s*\[u8\]\s*\)\s*->\s*Result<usize,\s*ErrType>\s*\{(.*?)\n    \}\n", rd, re.S)
+    loop = re.search(r"while\s+\w+\s*==\s*0\s*\{", m.group(2)) if m else None
+    if not m or not loop:
+        raise gt.GenError("reader.rs: CustomRead::read with its `while <cursor> == 0` loop not found")
+    body, par = m.group(2), re.escape(m.group(1))
+    guard = re.search(r"^\s*if\s+" + par + r"\.is_empty\(\)\s*\{\s*(?://[^\n]*\n\s*)*return\s+Ok\(0\);\s*\}", body, re.M)
+    guarded = bool(guard) and loop.start() > guard.start()
     out.append("Definition io_reader_guards_empty_buffer : bool := %s." % ("true" if guarded else "false"))
     # the write loop of the copy adapter and whether a zero-length write ends it
-    m = re.search(r"while\s+next_out_offset\s*<\s*lim\s*\{(.*?)\n                \}\n", md, re.S)
+    m = re.search(r"while\s+\w+\s*<\s*\w+\s*\{\s*match\s+\w+\.write\((.*?)\n                \}\n", md, re.S)
     if not m:
-        raise gt.GenError("enc/mod.rs: `while next_out_offset < lim` loop not found")
-    z = re.search(r"Ok\(size\)\s*=>\s*\{\s*if\s+size\s*==\s*0\s*\{(.*?)\}\s*next_out_offset\s*\+=\s*size;", m.group(1), re.S)
-    zero_err = bool(z) and "return Err(" in z.group(1)
+        raise gt.GenError("enc/mod.rs: the `while <offset> < <limit> { match w.write(..) {..} }` loop not found")
+    z = re.search(r"Ok\((\w+)\)\s*=>\s*\{\s*if\s+\1\s*==\s*0\s*\{(.*?)\}\s*\w+\s*\+=\s*\1;", m.group(1), re.S)
+    zero_err = bool(z) and "return Err(" in z.group(2)
     out.append("Definition io_copy_zero_write_is_error : bool := %s." % ("true" if zero_err else "false"))
     return out
